@@ -1,6 +1,7 @@
 package mon
 
 import (
+	"encoding/json"
 	"fmt"
 	"strings"
 	"unicode"
@@ -531,6 +532,7 @@ func init() {
 			{Name: "long", N: c04LongN, Run: c04Long, Exhaustive: true},
 			{Name: "json-number-text", N: c04NumN, Run: c04NumText, Exhaustive: true},
 			{Name: "string-token-bytes", N: c04ByteN, Run: c04Bytes, Exhaustive: true},
+			{Name: "lone-surrogates", N: c04SurN, Run: c04Sur, Exhaustive: true},
 		},
 	})
 }
@@ -593,4 +595,66 @@ func c04Bytes(c *Ctx, idx int) {
 			c.Nontrivial(text)
 		}
 	}
+}
+
+// ---- lone surrogate escapes in quoted identifiers
+//
+// Whether a quoted identifier with an unpaired \uD800-\uDFFF escape belongs to the grammar is left
+// open by the specification (the model does not judge it).  But both readings agree on this much:
+// such a text is either rejected, or it names the string that its escapes spell - whatever stands
+// for the lone surrogate, the characters and escapes written before and after it are part of the
+// name.  Accepting the text and dropping what follows the surrogate is "a malformed expression
+// silently reinterpreted as a different, valid one".  Direct oracle: if `{"<text>": a}` compiles,
+// its one key starts with the decoded prefix and ends with the decoded tail.
+var c04SurHead = []string{"", "ab", `\n`, `é`}
+var c04SurLone = []string{`\ud83d`, `\uD800`, `\udbff`, `\udc00`, `\uDFFF`, `\ude00`}
+var c04SurTail = []struct{ text, decoded string }{
+	{"zu1234", "zu1234"}, {`\n1234`, "\n1234"}, {`\u0041`, "A"}, {`\u00e9xyz`, "\u00e9xyz"}, {"A", "A"}, {"abcdefgh", "abcdefgh"}, {`\\u1234`, `\u1234`}, {"/u0041", "/u0041"}, {"0u0041", "0u0041"},
+	{`\t\ud83d\ude00`, "\t\U0001F600"}, {`xy\u0041`, "xyA"}, {"12345", "12345"}, {"123456", "123456"}, {"1234567", "1234567"}, {`\"quoted\"`, `"quoted"`}, {`\/\/\/`, "///"}, {`\u+!#$`, ""},
+}
+
+func c04SurN(c *Ctx) int { return len(c04SurHead) * len(c04SurLone) * len(c04SurTail) }
+
+func c04Sur(c *Ctx, idx int) {
+	h := c04SurHead[idx%len(c04SurHead)]
+	idx /= len(c04SurHead)
+	l := c04SurLone[idx%len(c04SurLone)]
+	idx /= len(c04SurLone)
+	t := c04SurTail[idx]
+	hd := map[string]string{"": "", "ab": "ab", `\n`: "\n", `é`: "é"}[h]
+	lowFirst := strings.HasPrefix(strings.ToLower(l), `\ud`) && strings.ToLower(l)[3] >= 'c'
+	if !lowFirst && strings.HasPrefix(t.text, `\ud`) {
+		return
+	}
+	name := `"` + h + l + t.text + `"`
+	text := "{" + name + ": a}"
+	feats := map[string]string{"family": "lone-surrogates"}
+	c.CheckGrammar(text, feats)
+	c.CheckGrammar(name, feats)
+	ls := c.LibSearch(text, map[string]any{"a": json.Number("1")})
+	if ls.Panic != nil {
+		return // reported by CheckGrammar / C03
+	}
+	if ls.Err != nil {
+		if ls.Cats != ref.CatSyntax {
+			c.Report(Violation{Rule: "C04/lone-surrogate-outcome", Expr: text, Got: ShowOut(ls), Want: "a syntax error, or an object whose key spells the escapes", Features: feats})
+		}
+		c.Nontrivial(text)
+		return
+	}
+	if t.decoded == "" {
+		c.Report(Violation{Rule: "C04/reinterpreted", Expr: text, Got: "compiles: " + ShowOut(ls), Want: "a syntax error (the escape after the surrogate is malformed)", Features: feats})
+		return
+	}
+	obj, ok := ls.Res.(map[string]any)
+	var key string
+	if ok && len(obj) == 1 {
+		for k := range obj {
+			key = k
+		}
+	}
+	if !ok || len(obj) != 1 || !strings.HasPrefix(key, hd) || !strings.HasSuffix(key, t.decoded) || len(key) < len(hd)+len(t.decoded) {
+		c.Report(Violation{Rule: "C04/reinterpreted", Expr: text, Got: fmt.Sprintf("compiles, and the key is %q", key), Want: fmt.Sprintf("a syntax error, or a key that starts with %q and ends with %q (what is written around the lone surrogate)", hd, t.decoded), Features: feats})
+	}
+	c.Nontrivial(text)
 }
